@@ -4,13 +4,14 @@ CONSTANTS
   MaxRule = 2
   MaxHost = 3
   Mode = "policy"
-  PMode = "history"
+  PMode = "broker"
   ProxyPats <- DefaultProxyPats
-  CacheKey = "effective"
+  CacheKey = "none"
   HistRule = 1
   HistLen = 3
-  AllowedAlphabet <- PlainAlphabet
+  AllowedAlphabet <- WideAllowedAlphabet
   PollAlphabet <- CaseBlankAlphabet
-SPECIFICATION PSpec
-INVARIANTS HistoryIndependent RejectedNeverRegistered ExplicitReject RegisteredAcceptsAllowed
+INIT PInit
+NEXT PStutter
+INVARIANT PEmit
 CHECK_DEADLOCK FALSE
